@@ -51,6 +51,17 @@ class PV(Vec):
     def __iter__(self):
         return iter((self.x, self.y))
 
+    def move(self, v):
+        self.x, self.y = self.x + v[0], self.y + v[1]
+        return self
+
+    def scale(self, a, b):
+        self.x, self.y = self.x * a, self.y * b
+        return self
+
+    def __copy__(self):
+        return PV(self.x, self.y)
+
     def __eq__(self, o):
         return isinstance(o, PV) and (self.x, self.y) == (o.x, o.y)
 
@@ -364,4 +375,109 @@ def r16_4(ctx):
     return out
 
 
-RULES = [r16_1, r16_2, r16_3, r16_4]
+class NVec(StandIn):
+    """stand-in 1-d numpy array of symbolic numbers"""
+
+    def __init__(self, items):
+        self.items = list(items)
+
+    def __rmul__(self, k):
+        return NVec([k * x for x in self.items])
+
+    __mul__ = __rmul__
+
+    def __iter__(self):
+        return iter(self.items)
+
+    def __len__(self):
+        return len(self.items)
+
+
+class NArr(StandIn):
+    """stand-in 2-d numpy array filled column-wise"""
+
+    def __init__(self, n, m):
+        self.rows = [[None] * m for _ in range(n)]
+
+    def __setitem__(self, key, val):
+        rs, c = key
+        if isinstance(rs, slice):
+            vals = list(val)
+            for r, v in zip(self.rows, vals):
+                r[c] = v
+        else:
+            self.rows[rs][c] = val
+
+    def __getitem__(self, key):
+        if isinstance(key, tuple):
+            return self.rows[key[0]][key[1]]
+        return self.rows[key]
+
+    def __iter__(self):
+        return iter([tuple(r) for r in self.rows])
+
+    def __len__(self):
+        return len(self.rows)
+
+
+def r16_5(ctx):
+    from rules.C18 import Sym
+    from verifkit import poly
+    out = Outcome("R16.5", "regular_polygon (general branch): vertex k = centre + radius * (cos t_k, sin t_k) with t_k = "
+                           "k tau / nsides, in increasing k (counter-clockwise), symbolically in cos t_k / sin t_k", floor=2)
+    fn = ctx.fn("primitive.Primitive.regular_polygon")
+    for n, r, c in ((3, Fr(2), (Fr(3), Fr(-1))), (5, Fr(7, 2), (Fr(-4), Fr(6)))):
+        cap = {}
+
+        def hook(rn, ev, call, name, recv, args, kwargs):
+            if name == "Point2D":
+                a = args[0] if len(args) == 1 else args
+                if isinstance(a, PV):
+                    return a
+                x, y = a
+                return PV(x, y)
+            if name == "empty":
+                shape = args[0]
+                return NArr(shape[0], shape[1])
+            if name == "linspace":
+                lo, hi, cnt = args[0], args[1], args[2]
+                if kwargs.get("endpoint", True) is not False or lo != 0 or abs(hi - math.tau) > 1e-12:
+                    cap["angles"] = f"linspace({lo}, {hi}, {cnt}, endpoint={kwargs.get('endpoint', True)})"
+                return NVec(range(cnt))
+            if name in ("cos", "sin") and args and isinstance(args[0], NVec):
+                return NVec([Sym(poly.atom(f"{name}{k}")) for k in args[0].items])
+            if name == "polygon":
+                cap["vertices"] = list(args[0])
+                return "SHAPE"
+            if name == "float" and args and isinstance(args[0], Sym):
+                return 0.0
+            return NotImplemented
+        try:
+            Runner(ctx, set(), hook, asserts=True).call_fn(fn, [], {"nsides": n, "radius": r, "center": c})
+        except (Undecided, Raised, TypeError, AttributeError) as ex:
+            out.undecided(fn.qname, f"nsides={n}: not interpretable: {ex}", where=fn.where())
+            continue
+        vs = cap.get("vertices")
+        if vs is None or len(vs) != n:
+            out.bad(fn.qname, f"nsides={n}: {0 if vs is None else len(vs)} vertices handed to polygon", where=fn.where())
+            continue
+        if "angles" in cap:
+            out.bad(fn.qname, f"angles are not k*tau/nsides for k = 0..nsides-1: {cap['angles']}", where=fn.where())
+            continue
+        errs = []
+        for k, v in enumerate(vs):
+            wx = poly.add(poly.const(c[0]), poly.scale(poly.atom(f"cos{k}"), r))
+            wy = poly.add(poly.const(c[1]), poly.scale(poly.atom(f"sin{k}"), r))
+            gx = Sym.lift(v.x).p
+            gy = Sym.lift(v.y).p
+            if gx != wx or gy != wy:
+                errs.append(f"vertex {k} = ({poly.show(gx)}, {poly.show(gy)}), required ({poly.show(wx)}, {poly.show(wy)})")
+        if errs:
+            out.bad(fn.qname, "general regular polygon: vertices are not centre + radius * (cos, sin)", where=fn.where(),
+                    detail=f"nsides={n}, radius={r}, centre=({c[0]}, {c[1]}): {errs[0]}")
+        else:
+            out.ok(fn.qname, f"nsides={n}: vertices = centre + radius*(cos t_k, sin t_k), k increasing", where=fn.where())
+    return out
+
+
+RULES = [r16_1, r16_2, r16_3, r16_4, r16_5]
